@@ -31,7 +31,7 @@ func TestMain(m *testing.M) { pbt.Main(m) }
 type soupCase struct{ Text string }
 
 var identParts = []string{"a", "b", "require", "module", "go", "x.y/z", "v1.2.3", "=>", "=", "é", "日本", "-", "+incompatible", "1.21", "k=v", "@", "!", "~", "*", "a\"b", "it's", "`", "//", "/", "/*", "*/", "\\", "#", "%", ";", ":"}
-var stringToks = []string{`"a"`, `""`, `"a b"`, `"a\"b"`, `"\\"`, `"a\nb"`, `"é"`, "`raw`", "``", "`a\"b`", "`a\\`", `"a//b"`, `"("`, `"// not a comment"`, `"\x00"`, `"`, "`", `"unterminated`, "`unterminated", `"a\`}
+var stringToks = []string{`"a"`, `""`, `"a b"`, `"a\"b"`, `"\\"`, `"a\nb"`, `"é"`, "`raw`", "``", "`a\"b`", "`a\\`", `"a//b"`, `"("`, `"// not a comment"`, `"a b\x5c"`, `"dir\u005c"`, `"x y\134"`, `"a\\\\"`, `"a b\\"`, `"\x00"`, `"`, "`", `"unterminated`, "`unterminated", `"a\`}
 var punct = []string{"(", ")", "[", "]", "{", "}", ","}
 var commentToks = []string{"// c", "//", "//c", "// a // b", "//  spaced  ", "// é", "// \t", "///", "// )", "// (", "// \"", "//\r"}
 
